@@ -71,6 +71,9 @@ func (g *Gen) instr(in ssa.Instruction, h *Heap, guard string) *Heap {
 	case *ssa.RunDefers:
 		for i := len(g.defers) - 1; i >= 0; i-- {
 			d := g.defers[i]
+			if !blockReaches(d.call.Block(), x.Block()) {
+				continue // registered on a path that cannot lead here
+			}
 			cond := And(guard, d.guard)
 			hc := g.callCommon(nil, &d.call.Call, d.args, d.recvOrFn, h, cond, d.call.Pos())
 			if d.guard == guard || d.guard == "true" {
@@ -746,4 +749,23 @@ func (g *Gen) selectStmt(x *ssa.Select, h *Heap, guard string) *Heap {
 	}
 	g.tuples[x] = tup
 	return h
+}
+
+// blockReaches: b can be reached from a along CFG edges (a == b counts).
+func blockReaches(a, b *ssa.BasicBlock) bool {
+	seen := map[*ssa.BasicBlock]bool{}
+	stack := []*ssa.BasicBlock{a}
+	for len(stack) > 0 {
+		x := stack[len(stack)-1]
+		stack = stack[:len(stack)-1]
+		if x == b {
+			return true
+		}
+		if seen[x] {
+			continue
+		}
+		seen[x] = true
+		stack = append(stack, x.Succs...)
+	}
+	return false
 }
